@@ -2,6 +2,7 @@ SPECIFICATION Spec
 CONSTANTS
   MaxSigs = 4
   MaxSteps = 3
+  MaxOps = 3
   Tools = {"none", "key", "eth", "manual_ok", "manual_bad", "manual_spell", "message"}
 INVARIANT RefusesMalformed
 INVARIANT AcceptsWellFormed
@@ -13,6 +14,7 @@ INVARIANT RoundTripP
 INVARIANT ExchangeShape
 INVARIANT AuthorizedIff
 INVARIANT FileNamesItsVersion
+INVARIANT ObjectUnchanged
 INVARIANT DocumentedFailure
 INVARIANT AuthorizedIffK
 INVARIANT Holds
